@@ -55,8 +55,8 @@ Proof. repeat split; reflexivity. Qed.
    The same statements for the TRANSCRIPTION of gomini/unify.go (GCore.v): walk, CastVar, hasCycle through
    reflecttools.Any, isLeaf + reflect.DeepEqual, and the descent through reflecttools.ZipReduce with the state as the
    accumulator, over the reflecttools value model of C18 (Reflect.v).  `tenc` / `senc` encode pointer-shaped values
-   (nil pointers, pointers to scalars, pointers to structs, slices, registered variable pointers `gvar i`) and states as
-   terms and substitutions.  The correspondence check runs THIS transcription against the real EqualO. *)
+   (nil pointers, pointers to scalars, pointers to structs, slices, registered variable pointers `gvar i`, and - in
+   interface-typed fields / elements - any of these or the untyped nil interface) and states as terms and substitutions.  The correspondence check runs THIS transcription against the real EqualO. *)
 Require GMK.Reflect GMK.GCore GMK.GCoreSpec.
 
 (* the transcribed algorithm computes what micro's verified unify computes on the encodings *)
@@ -113,5 +113,10 @@ Example C04_code_nonvacuous :
   GCore.gunify 20 (Reflect.GStructPtr [GCore.gvar 0; str 5%Z]) (Reflect.GStructPtr [Reflect.GNilPtr; GCore.gvar 1]) []
     = GCore.GROk [(0%N, Reflect.GNilPtr); (1%N, str 5%Z)] /\
   GCore.gunify 20 (Reflect.GSlice false [str 1%Z; str 2%Z]) (Reflect.GSlice false [str 1%Z; str 2%Z; str 3%Z]) [] = GCore.GRFail /\
-  GCore.tenc (Reflect.GStructPtr [GCore.gvar 0; str 5%Z]) = Some (TPair (TAtom (AInt 2)) (TPair (TVar 0) (TPair (TAtom (AStr 5)) TNil))).
+  GCore.tenc (Reflect.GStructPtr [GCore.gvar 0; str 5%Z]) = Some (TPair (TAtom (AInt 2)) (TPair (TVar 0) (TPair (TAtom (AStr 5)) TNil))) /\
+  (* interface-typed fields: a variable against the untyped nil is BOUND to it; afterwards it no longer unifies with a constant *)
+  GCore.gunify 20 (Reflect.GStructPtr [Reflect.GIface (GCore.gvar 0); Reflect.GNil]) (Reflect.GStructPtr [Reflect.GNil; Reflect.GIface (GCore.gvar 1)]) []
+    = GCore.GROk [(0%N, Reflect.GNil); (1%N, Reflect.GNil)] /\
+  GCore.gunify 20 (GCore.gvar 0) (str 5%Z) [(0%N, Reflect.GNil)] = GCore.GRFail /\
+  GCore.tenc (Reflect.GStructPtr [Reflect.GIface (GCore.gvar 0); Reflect.GNil]) = Some (TPair (TAtom (AInt 2)) (TPair (TVar 0) (TPair (TAtom GCore.nil_iface_atom) TNil))).
 Proof. repeat split; reflexivity. Qed.
